@@ -211,6 +211,12 @@ impl LocustDB {
     pub fn evict_cache(&self) -> usize {
         self.inner_locustdb.evict_cache()
     }
+
+    /// Access to the inner database for the verification hooks.
+    #[cfg(feature = "verif")]
+    pub fn verif_inner(&self) -> &Arc<InnerLocustDB> {
+        &self.inner_locustdb
+    }
 }
 
 #[derive(Clone)]
